@@ -48,9 +48,12 @@ func (P *Prog) successReturnGuards() map[string][]successRet {
 			idx, want = res.Len()-1, "true"
 		}
 		for _, ret := range Returns(f) {
-			c, _ := P.retClass(ret, idx)
+			c, t := P.retClass(ret, idx)
 			if c != want {
-				continue
+				// `return f(x)` forwards f's verdict: a success return under the implicit guard isnil(f(x))
+				if !(want == "nil" && c == "unknown" && t != nil && (t.Op == "call" || t.Op == "invoke" || t.Op == "extract")) {
+					continue
+				}
 			}
 			gs := P.GuardsStable(ret)
 			n := short(f.String())
